@@ -16,9 +16,11 @@ EXPLANATION = (
     "into; (R2) built-in argument contract; (R3) every constructible run-time error has a code; "
     "(R4) every label the generator leaves symbolic is checked and resolved; (R5) no reachable "
     "todo!/unimplemented!; (R6) explicit panic sites reachable from generate_instructions and "
-    "Interpreter::interpret are each audited; (R7) the error path of the fetch-execute loop unwinds the "
+    "Interpreter::interpret (in rusty_basic and the value crates it calls) are each audited, and the "
+    "implicit ones (bounds check of an index expression, zero check of integer / and %) are proved from "
+    "their dominating comparisons or audited; (R7) the error path of the fetch-execute loop unwinds the "
     "context states a failing statement had opened (shared with C05.R6).")
-NOT_DECIDED = ["panic-freedom in general (implicit arithmetic overflow / bounds panics, stack depth)"]
+NOT_DECIDED = ["panic-freedom in general (arithmetic overflow in the debug profile, stack depth, panics inside std)"]
 
 PCL = labels.PCL
 ER = "rusty_linter::post_linter::expression_reducer::ExpressionReducer"
